@@ -736,6 +736,50 @@ def _parents_call(e: ast.AST, n: str) -> bool:
     return isinstance(e, ast.Call) and ((isinstance(e.func, ast.Name) and e.func.id == "get_parent_modules") or (isinstance(e.func, ast.Attribute) and e.func.attr == "get_parent_modules")) and len(e.args) == 1 and _is_name(e.args[0], n)
 
 
+def filtered_keys(M: Model, e: ast.expr, n: str):
+    """resolved `e` = the aliased modules (or items) restricted by a condition: `(k for k, a in aliases.items() if a != k)`,
+    `[k for k in aliases if ...]`, `filter(lambda k: ..., aliases)`.
+    -> (kind 'keys' | 'items', status, text of the filter);  status: 'nodes' = only existing graph nodes are kept (implied by the
+    existence check), 'match' = the condition relates the candidate to the module being labelled (a pre-match), 'foreign' = a
+    condition on the aliased module / the alias alone: some aliased module can never be chosen."""
+    var, ifs, kind = None, None, None
+    if isinstance(e, (ast.ListComp, ast.SetComp, ast.GeneratorExp)) and len(e.generators) == 1 and e.generators[0].ifs:
+        g = e.generators[0]
+        base = M.keys_of_A(g.iter)
+        if base == "keys" and isinstance(g.target, ast.Name) and isinstance(e.elt, ast.Name) and e.elt.id == g.target.id:
+            var, ifs, kind = g.target.id, g.ifs, "keys"
+        elif base == "items" and isinstance(g.target, (ast.Tuple, ast.List)) and len(g.target.elts) == 2 and all(isinstance(x, ast.Name) for x in g.target.elts):
+            if isinstance(e.elt, ast.Name) and e.elt.id == g.target.elts[0].id:
+                var, ifs, kind = g.target.elts[0].id, g.ifs, "keys"
+            elif isinstance(e.elt, (ast.Tuple, ast.List)) and len(e.elt.elts) == 2 and all(isinstance(x, ast.Name) for x in e.elt.elts) and [x.id for x in e.elt.elts] == [x.id for x in g.target.elts]:
+                var, ifs, kind = g.target.elts[0].id, g.ifs, "items"
+    elif isinstance(e, ast.Call) and isinstance(e.func, ast.Name) and e.func.id == "filter" and len(e.args) == 2 and M.keys_of_A(e.args[1]) == "keys":
+        pred = _predicate_as_lambda(M, e.args[0])
+        if pred is not None:
+            var, ifs, kind = pred.args.args[0].arg, [pred.body], "keys"
+    if var is None:
+        return None
+    f = f_and([to_formula(c, M.helper_subst()) for c in ifs])
+    text = " and ".join(norm(c, 60) for c in ifs)
+    statuses = set()
+    for a in atoms_of(f):
+        pa = parse_atom(a)
+        m = M.node_membership(pa) if pa is not None else None
+        if m is not None and _is_name(m[0], var) and m[2] == "all":
+            statuses.add("nodes")
+        elif n and classify_atom(M, a, n, var, set()) not in ("other", "in-keys", "alias-truthy", "label-text", "labelled"):
+            statuses.add("match")
+        elif n and pa is not None and any(isinstance(x, ast.Name) and x.id == n for x in ast.walk(pa)):
+            statuses.add("unknown")  # depends on the module being labelled in a way that is not read
+        else:
+            statuses.add("foreign")
+    if "foreign" in statuses:
+        return kind, "foreign", text
+    if statuses == {"nodes"}:
+        return kind, "nodes", text
+    return kind, ("match" if statuses == {"match"} else "unknown"), text
+
+
 def domain_order(M: Model, e: ast.expr, n: str, depth: int = 0) -> tuple[str | None, str | None]:
     """(domain, order) of a resolved candidate collection.
     domain: 'keys' | 'items' (all aliased names) | 'lineage' (n and its ancestors) | 'parents' (ancestors of n only)
@@ -746,6 +790,9 @@ def domain_order(M: Model, e: ast.expr, n: str, depth: int = 0) -> tuple[str | N
         return domain_order(M, e.args[0], n, depth + 1)
     if isinstance(e, ast.Call) and isinstance(e.func, ast.Name) and e.func.id == "sorted" and len(e.args) == 1:
         d, _o = domain_order(M, e.args[0], n, depth + 1)
+        if d is not None and d.startswith("filtered:"):
+            kind = d.split(":", 1)[1]
+            return d, _sorted_order(M, e.keywords, kind == "items")
         if d == "objs":
             info = object_items(M, e.args[0])
             return d, (_sorted_order(M, e.keywords, ("attr", info["module"], info.get("props"))) if info and info.get("module") else None)
@@ -767,6 +814,15 @@ def domain_order(M: Model, e: ast.expr, n: str, depth: int = 0) -> tuple[str | N
     k = M.keys_of_A(e)
     if k is not None and not (isinstance(e, ast.Call) and isinstance(e.func, ast.Name) and e.func.id in ("sorted", "reversed")):
         return k, "mapping"
+    fk = filtered_keys(M, e, n)
+    if fk is not None:
+        kind, status, text = fk
+        if status == "nodes":
+            return kind, "mapping"  # restricted to existing nodes: implied by the existence check
+        if status == "foreign":
+            M.__dict__.setdefault("_domain_filters", {})[kind] = text
+            return "filtered:" + kind, "mapping"
+        return None, None
     if object_items(M, e) is not None:
         return "objs", "mapping"
     if _parents_call(e, n):
@@ -1436,6 +1492,10 @@ def _judge_selection(C, ev: Event, sel: Selection, label_names: set[str], has_se
             out.append(("unsure", r1, what_t, f"the match condition `{_show(P)}` is stronger than 'equals or extends by whole components'", sel.where))
         else:
             out.append(("unsure", r1, what_t, f"the match condition `{_show(P)}` is not recognised as a whole-component ancestor test", sel.where))
+    elif domain is not None and domain.startswith("filtered:"):
+        flt = M.__dict__.get("_domain_filters", {}).get(domain.split(":", 1)[1], "")
+        out.append(("bad", r2, "most specific first", f"the candidates are only the aliased modules with `{flt}` (`{norm(sel.D, 70)}`): an aliased module that fails this test can never be chosen although it may be the nearest aliased ancestor - its sub modules take an outer alias or keep their names", sel.where))
+        return out
     else:
         out.append(("unsure", r2, "most specific first", f"the candidates `{norm(sel.D, 80)}` are neither all aliased modules nor the ancestors of the module", sel.where))
         return out
